@@ -19,7 +19,7 @@ from mc import common, wsgi, sched
 
 ID = 'C12'
 LEVEL = 'model_checking'
-BUDGET = {'quick': 420, 'thorough': 3300}
+BUDGET = {'quick': 900, 'thorough': 3300}
 HASHSEEDS = [0]
 RULE = ('thread programs = one request each from 8 kinds (each request carries a unique token in path, query and '
         'header); for every pair / triple / quadruple all schedules within the preemption bound are executed on real '
@@ -35,7 +35,8 @@ KINDS = ['hit', 'ctx', '404', '405', 'fall', 'exc', 'redir', 'hit2', 'app2', 'q4
 # further kinds, explored in the pairs listed in EXTRA_PAIRS: star = a route whose `*` binding is left empty and
 # whose endpoint appends to the list it was given; e404h / e405j = error responses negotiated for different Accept
 # headers.  For these pairs every execution is preceded by one sequential request of the first thread's kind.
-EXTRA_KINDS = ['star', 'e404h', 'e405j', 'cklogin', 'cklogout', 'tabget', 'tabpost']
+EXTRA_KINDS = ['star', 'e404h', 'e405j', 'cklogin', 'cklogout', 'tabget', 'tabpost', 'jsonpa', 'jsonpb', 'jsonp0']
+# jsonpa / jsonpb / jsonp0: one route rendered by one JSONPRender, asked for with callback A, callback B, none
 # tabget / tabpost: a GET and a POST route on one path, different endpoints, both rendered as an HTML table by one
 # BasicRender instance (the page is headed by the endpoint's name and docstring)
 # cklogin / cklogout: a route behind SignedCookieMiddleware (session expiry, fixed clock) - one client stores its
@@ -43,7 +44,7 @@ EXTRA_KINDS = ['star', 'e404h', 'e405j', 'cklogin', 'cklogout', 'tabget', 'tabpo
 EXTRA_PAIRS = [('star', 'star'), ('star', 'hit'), ('star', '404'), ('e404h', 'e405j'), ('e405j', 'e404h'),
                ('e404h', 'e404h'), ('e404h', '404'), ('e405j', 'exc'), ('e405j', 'q405'),
                ('cklogout', 'cklogin'), ('cklogin', 'cklogout'), ('cklogin', 'cklogin'),
-               ('tabget', 'tabpost'), ('tabpost', 'tabget')]
+               ('tabget', 'tabpost'), ('tabpost', 'tabget'), ('jsonpa', 'jsonpb'), ('jsonpa', 'jsonp0'), ('jsonp0', 'jsonpb')]
 # app2: served by a second Application; q405/qpost: a path with a GET-only and a POST-only route
 
 
@@ -136,10 +137,16 @@ class World(object):
             """Change the thing (POST)."""
             return {'method': 'post', 'val': val}
 
+        from clastic.render import JSONPRender
+        jsonp_render = JSONPRender(dev_mode=True)
+
+        def ep_jsonp(val, request):
+            return {'who': val, 'tok': request.headers.get('X-Tok'), 'pad': list(range(8))}
+
         def docs(rest, val):
             rest.append('index.%s' % val)
             return Response('docs|' + '/'.join(rest))
-        self.harness_funcs = [ep_ck, ep_tab_get, ep_tab_post, docs, Stamp.request, PerReq.request, PerReq.endpoint, ep, ep_ctx, render, nb, second, boom, second_q]
+        self.harness_funcs = [ep_ck, ep_tab_get, ep_tab_post, ep_jsonp, docs, Stamp.request, PerReq.request, PerReq.endpoint, ep, ep_ctx, render, nb, second, boom, second_q]
         from werkzeug.wrappers import Request
 
         class RecordingRequest(Request):
@@ -154,7 +161,7 @@ class World(object):
             request_type = RecordingRequest
         self.app = App([GET('/a/<x>', ep), ('/b/<x>/', ep), ('/c/<x>', ep_ctx, render), ('/n', nb), ('/n', second),
                                 ('/boom', boom), POST('/p', lambda: Response('p')), ('/d/<x:int>', ep),
-                                GET('/q/<x>', ep), POST('/q/<x>', second_q), ('/docs/<rest*>', docs), GET('/tab', ep_tab_get, tab_render), POST('/tab', ep_tab_post, tab_render),
+                                GET('/q/<x>', ep), POST('/q/<x>', second_q), ('/docs/<rest*>', docs), ('/jsonp', ep_jsonp, jsonp_render), GET('/tab', ep_tab_get, tab_render), POST('/tab', ep_tab_post, tab_render),
                                 Route('/ck', ep_ck, middlewares=[SignedCookieMiddleware(secret_key=b'c12-fixed-key')])],
                                middlewares=[Stamp(), PerReq()])
 
@@ -165,6 +172,8 @@ class World(object):
         h = {'X-Tok': tok, 'Host': tok + '.example'}       # every request names its own host
         if kind == 'star':
             return ('/docs', 'GET', q, h)
+        if kind in ('jsonpa', 'jsonpb', 'jsonp0'):
+            return ('/jsonp', 'GET', q + {'jsonpa': '&callback=cbA', 'jsonpb': '&callback=cbB', 'jsonp0': ''}[kind], h)
         if kind == 'tabget':
             return ('/tab', 'GET', q, dict(h, Accept='text/html'))
         if kind == 'tabpost':
